@@ -97,6 +97,10 @@ func (u *under) FlushError() error {
 	return nil
 }
 
+type rawKey struct{}
+
+var ctxTurn int
+
 type behaviour struct {
 	name   string
 	status int // status expected to be recorded
@@ -128,6 +132,20 @@ func behaviours() []behaviour {
 			c.Writer().WriteHeader(200)
 		}, ""},
 		behaviour{"double WriteHeader 201 then 500", 201, func(c fox.Context) { c.Writer().WriteHeader(201); c.Writer().WriteHeader(500) }, ""},
+	)
+	// the handler (or an inner middleware) replaces the writer of the context with a recorder of its own over the raw
+	// writer, as a compressing or buffering middleware does: the status recorded is the one of the writer in place when
+	// the handler returns
+	swap := func(c fox.Context) {
+		raw, _ := c.Request().Context().Value(rawKey{}).(http.ResponseWriter)
+		_, tc := fox.NewTestContext(raw, c.Request())
+		c.SetWriter(tc.Writer())
+	}
+	out = append(out,
+		behaviour{"SetWriter(own recorder), then 503 through it", 503, func(c fox.Context) { swap(c); c.Writer().WriteHeader(503) }, ""},
+		behaviour{"SetWriter(own recorder), then 418 with a body", 418, func(c fox.Context) { swap(c); _ = c.String(418, "teapot") }, ""},
+		behaviour{"SetWriter(own recorder), then redirect 302", 302, func(c fox.Context) { swap(c); _ = c.Redirect(302, "/moved") }, "/moved"},
+		behaviour{"SetWriter(own recorder), nothing written", 200, func(c fox.Context) { swap(c) }, ""},
 	)
 	return out
 }
@@ -387,9 +405,19 @@ func one(run *kit.Run, f, plain *fox.Router, cap *capture, cfg resolverCfg, b be
 			done = true
 		}
 		req := &http.Request{Method: method, Host: "example.test", URL: &url.URL{Path: path, RawPath: rawPath, RawQuery: "z=1"}, Header: http.Header{}, RemoteAddr: remote, Proto: "HTTP/1.1", ProtoMajor: 1, ProtoMinor: 1}
-		return req.WithContext(context.WithValue(context.Background(), behKey{}, &bb)), &under{h: http.Header{}}, &done
+		u := &under{h: http.Header{}}
+		// every third request arrives with a context that is already cancelled (the client went away): the record is
+		// owed all the same
+		base := context.Background()
+		if ctxTurn%3 == 2 {
+			cctx, cancel := context.WithCancel(base)
+			cancel()
+			base = cctx
+		}
+		return req.WithContext(context.WithValue(context.WithValue(base, behKey{}, &bb), rawKey{}, http.ResponseWriter(u))), u, &done
 	}
 	// 405 and OPTIONS need the options enabled: WithNoMethodHandler/WithOptionsHandler enable them
+	ctxTurn++
 	req, u, done := mk()
 	cap.mu.Lock()
 	cap.recs, cap.done = nil, done
